@@ -39,6 +39,7 @@ import (
 	"oras.land/oras-go/v2/internal/graph"
 	"oras.land/oras-go/v2/internal/manifestutil"
 	"oras.land/oras-go/v2/internal/resolver"
+	"oras.land/oras-go/v2/internal/verifhook"
 	"oras.land/oras-go/v2/registry"
 )
 
@@ -137,6 +138,7 @@ func (s *Store) Push(ctx context.Context, expected ocispec.Descriptor, reader io
 	if err := s.storage.Push(ctx, expected, reader); err != nil {
 		return err
 	}
+	verifhook.At("oci.push.afterStorage")
 	if err := s.graph.Index(ctx, s.storage, expected); err != nil {
 		return err
 	}
@@ -215,6 +217,7 @@ func (s *Store) delete(ctx context.Context, target ocispec.Descriptor) ([]ocispe
 			return nil, err
 		}
 	}
+	verifhook.At("oci.delete.beforeStorageDelete")
 	if err := s.storage.Delete(ctx, target); err != nil {
 		return nil, err
 	}
@@ -264,6 +267,7 @@ func (s *Store) tag(ctx context.Context, desc ocispec.Descriptor, reference stri
 	if err := s.tagResolver.Tag(ctx, desc, reference); err != nil {
 		return err
 	}
+	verifhook.At("oci.tag.beforeSaveIndex")
 	if s.AutoSaveIndex {
 		return s.saveIndex()
 	}
@@ -558,6 +562,7 @@ func (s *Store) gcIndex(ctx context.Context) error {
 		// check if the referrers manifest can traverse to the existing graph
 		subject := &desc
 		for {
+			verifhook.AtKey("oci.gcIndex.subjectStep", desc.Digest.String())
 			subject, err := manifestutil.Subject(ctx, s.storage, *subject)
 			if err != nil {
 				return err
